@@ -187,10 +187,16 @@ func runCase(c *wk.Ctx, i int) {
 
 	// ---- damage
 	if !bytes.Equal(mainW.data, encode(p.recs)) {
-		// The stream reads back correctly but is not the layout the format
-		// prescribes: spans cannot be attributed, so no damage verdicts.
+		// The stream reads back correctly but is not byte for byte what the format
+		// prescribes. Damage verdicts need the byte span of every record: they are
+		// still given if every chunk sits where the model puts it (valid header with
+		// the expected length at the expected offset; type and padding bytes may
+		// differ) -- otherwise spans cannot be attributed and the journal is skipped.
 		c.Count("journals_with_unexpected_wire_bytes", 1)
-		return
+		if !sameStructure(mainW.data, l) {
+			c.Count("journals_with_unknown_structure", 1)
+			return
+		}
 	}
 	s := &suite{c: c, i: i, r: r, p: p, l: l, data: mainW.data, work: append([]byte(nil), mainW.data...),
 		x: x, offs: map[int]int{}, counts: map[string]int64{}}
@@ -236,6 +242,25 @@ func runCase(c *wk.Ctx, i int) {
 			"damage_counts": s.counts, "tolerant_records_dropped": s.tol.dropped, "tolerant_records_droppable": s.tol.droppable,
 			"strict_error_stops": s.str.errStops, "strict_clean_eof": s.str.cleanEOF})
 	}
+}
+
+// sameStructure reports whether data has a validating chunk of the modelled
+// length at every modelled offset and ends where the model ends.
+func sameStructure(data []byte, l *layout) bool {
+	if len(data) != l.size {
+		return false
+	}
+	for _, ch := range l.chunks {
+		h := data[ch.off : ch.off+headerSize]
+		if int(h[4])|int(h[5])<<8 != ch.n || h[6] < tFull || h[6] > tLast {
+			return false
+		}
+		sum := uint32(h[0]) | uint32(h[1])<<8 | uint32(h[2])<<16 | uint32(h[3])<<24
+		if sum != maskedCRC(h[6], data[ch.off+headerSize:ch.off+headerSize+ch.n]) {
+			return false
+		}
+	}
+	return true
 }
 
 // partialReads: Next may be called without reading the current record to its
